@@ -629,11 +629,18 @@ class C01(Property):
             'same class, the sibling class or a subclass), a mapping (dict, OrderedDict, UserDict, mappingproxy, a bare '
             'collections.abc.Mapping), a list / generator / iterator / zip of pairs, a snapshot of its own pairs or its own '
             'todict(), keyword arguments, setdefault, pop, popall, poplast, popitem, clear, copy(), copy.copy, '
-            'copy.deepcopy, pickle protocols 0-5, ==/!= against OMDs, mappings, its own todict() and non-mappings, '
-            'sorted, sortedvalues) on two registers, over 4 key ids x 5 value ids whose Python objects rotate through '
+            'copy.deepcopy, pickle protocols 0-5, ==/!= (and the reflected forms) against OMDs, mappings, mappings with '
+            '__missing__ (Counter, defaultdict), its own todict() and non-mappings, sorted, sortedvalues, fromkeys, the view '
+            'objects viewkeys / viewvalues / viewitems (made once per dictionary object and read again after every later op), '
+            'repr, a copy that contains itself (repr, deepcopy, pickle), iterators left half-consumed across mutations and '
+            'drained later) on two registers, over 4 key ids x 5 value ids whose Python objects rotate through '
             'alias forms (1/1.0/True, None, tuples; one universe where every key and every value is falsy), on '
             'dictutils.OrderedMultiDict, urlutils.QueryParamDict and the standalone copy of the class in urlutils.py. '
-            'Argument iterables may raise half way (the exception must propagate and leave a consistent dictionary); '
+            'Argument iterables may raise half way, mapping arguments may raise from their key iterator or from __getitem__ '
+            '(also for a key the receiver holds), iterables of pairs may contain a malformed item (1-tuple, 3-tuple, int, None, '
+            'unhashable key) - the exception must propagate and leave a consistent dictionary that holds a prefix of the '
+            'argument; calls outside the domain (unhashable key, argument not iterable, two positional arguments) must leave '
+            'the pairs as they are; '
             'caller-supplied defaults rotate through a private object and falsy objects (None where None is not a '
             'value); after each call the harness scribbles on every object it handed in and on every list / dict / OMD '
             'it got back (nothing may be kept or handed out by reference). EVERY reader of `s` (and the keyed and '
@@ -651,15 +658,22 @@ class C01(Property):
         'popitem() removes some present key with all its values and returns it with its most recent value; the oracle '
         'does not prescribe which key (the model and the fix use the key of the most recently inserted pair)',
         'sortedvalues: the oracle accepts any order among values whose sort keys are equal; sorted() is stable like sorted()',
-        'fromkeys, the view objects and FastIterOrderedMultiDict are outside the property statement',
+        'FastIterOrderedMultiDict is outside the property statement; fromkeys and the view objects are modelled (fromkeys = the '
+        'constructor on (key, default) pairs; a view reads the current state through the public readers)',
+        'a mapping with __missing__ (Counter, defaultdict) is a mapping: == is true only when it HAS the same keys',
+        'a dictionary that contains itself as a value: repr must not raise (what it prints for the inner occurrence is not prescribed)',
+        'calls outside the domain of the statement (unhashable key, non-iterable argument, too many arguments): any exception, or '
+        'none, is accepted; the pairs must be unchanged. A malformed item inside an iterable of pairs: TypeError or ValueError',
         'an argument iterable that raises: the exception must propagate; how many of the items yielded before were '
         'taken over is not prescribed by the oracle (any prefix; the model/code: all of them for update / update_extend, '
         'none for addlist), but every reader must agree with that one list of pairs afterwards. Malformed items '
-        '(not pairs) and mappings whose __getitem__ raises are outside the model',
+        '(not pairs) and mappings whose __getitem__ / keys() raise are in the model as abort operations; the model is asked about the '
+        'prefix the implementation was seen to take',
         'an OMD of the sibling class or of a subclass counts as an OMD (isinstance), any collections.abc.Mapping as a mapping',
     ]
     CORRESPONDENCE_NAME = ('C01.Driver (concrete model: dict of value lists + pointer-level linked list of cells + per-key '
-                           'cell index _map; readers through its abstraction, reversed() along PREV) vs boltons '
+                           'cell index _map; readers through its abstraction, reversed() along PREV; ownership layer: list '
+                           'objects of the storage vs the lists the caller holds and writes to) vs boltons '
                            'OrderedMultiDict (dictutils, urlutils copy, QueryParamDict)')
 
     # ------------------------------------------------------------------ translator hook
